@@ -296,6 +296,19 @@ pub fn cases(thorough: bool) -> Vec<Case> {
         tables.push(vec![mk(true, vec!["a"], vec![]), mk(false, vec!["a", "b"], vec![vec!["5", v]])]);
         tables.push(vec![mk(false, vec!["a", "b"], vec![vec![v, v]]), mk(false, vec!["a"], vec![vec!["7"]])]);
     }
+    if thorough {
+        // three tables, three columns, three rows, pairs of values, an empty value
+        for v in VALUES {
+            for w in VALUES {
+                tables.push(vec![mk(false, vec!["a", "b"], vec![vec![v, w], vec![w, v], vec!["", v]])]);
+                tables.push(vec![
+                    mk(true, vec!["a", "b", "c"], vec![vec![v, w, "c1"]]),
+                    mk(false, vec!["b", "a"], vec![vec![w, v], vec![v, ""]]),
+                    mk(true, vec!["a", "b"], vec![vec!["r", w]]),
+                ]);
+            }
+        }
+    }
     let nt = TEMPLATES.len();
     let mut places: Vec<(usize, usize, Option<usize>, Option<usize>)> = Vec::new();
     for t in 0..nt {
